@@ -257,3 +257,38 @@ def c13(ctx, api):
     acc.add('GenSort: lengths %s x 4 key patterns x {number, string keys} x %d seeds x 10 expressions'
             % (lengths, 8 if thorough else 1), st, summ)
     return acc.result(RULE_PINNED, extra={'model_checks': ['Permutation', 'Ordered', 'TiesKeepInputOrder']})
+
+
+# --------------------------------------------------------------------- C16
+@plan('C16')
+def c16(ctx, api):
+    acc = Acc()
+    thorough = ctx['tier'] == 'thorough'
+    n = 4 if thorough else 3
+    st, summ = api['run_tlc_to_harness'](ctx, 'lit', 'GenLit',
+                                         cfg(constants={'Emit': 'TRUE', 'Prop': '"C16"', 'MaxLen': n}), timeout=3000)
+    acc.add("GenLit: all strings of length <= %d over {' \" ` \\ a u LF U+0001 e-acute emoji U+FFFD blank} through raw, JSON and quoted-identifier literals (two escaping styles each) and 11 JSON values" % n,
+            st, summ)
+    return acc.result(RULE_PINNED, extra={'model_checks': ['LiteralDecodesToItself', 'DecEncRaw', 'DecEncQuoted', 'DecEncJSON', 'OneToken']})
+
+
+# --------------------------------------------------------------------- C04
+@plan('C04')
+def c04(ctx, api):
+    acc = Acc()
+    thorough = ctx['tier'] == 'thorough'
+    root = ctx['root']
+    for alpha, n_quick, n_thorough in (('Structural', 4, 5), ('Literal', 4, 5), ('Operator', 3, 4), ('Keyword', 4, 5), ('Hash', 5, 6)):
+        n = n_thorough if thorough else n_quick
+        text = cfg(constants={'Emit': 'TRUE', 'Prop': '"C04"', 'MaxLen': n, 'AlphaName': '"%s"' % alpha})
+        text = text.replace('CONSTANTS\n', 'CONSTANTS\n  Alpha <- Alpha%s\n' % alpha)
+        st, summ = api['run_tlc_to_harness'](ctx, 'chars-' + alpha.lower(), 'GenChars', text, timeout=3000,
+                                             harness_cmd='acceptset',
+                                             harness_args=['-alphabets', os.path.join(root, 'spec', 'pools', 'Alphabets.alph'),
+                                                           '-alpha', alpha, '-maxlen', str(n)])
+        acc.add('GenChars %s alphabet: every concatenation of <= %d lexemes' % (alpha, n), st, summ)
+    return acc.result('every concatenation of at most k lexemes of each alphabet is compiled by the real library (the harness '
+                      'enumerates them itself) and compared with the static outcome of the specification, which TLC computed for '
+                      'the same enumeration (TLC prints only the texts that are not plain syntax errors); a case is non-trivial '
+                      'when that outcome is a single accept/one-category verdict',
+                      extra={'model_checks': ['RenderLexRoundTrip', 'BlanksBetweenTokensNeutral']})
